@@ -129,7 +129,6 @@ Proof.
   apply tmp_copy_loop_In in Ha; try lia.
   - destruct Ha as (r & Hr & ->). unfold in_plane, plane_row. cbn [a_buf a_rw a_len a_off].
     repeat split. exists r. split; [exact Hr | reflexivity].
-  - nia.
   - unfold comp_v. destruct (comp =? 0); lia.
 Qed.
 
@@ -163,8 +162,7 @@ Proof.
   rewrite <- Epw. change 0 with (0 * samp_v ss) at 1.
   pose proof (PAD_cases height (samp_v ss) ltac:(lia) Hsv).
   apply enc_copy_loop_complete; try lia.
-  - unfold comp_v. destruct (comp =? 0); lia.
-  - rewrite Z2Nat.id by (apply Z.div_pos; lia). rewrite Eph in Hr. lia.
+  unfold comp_v. destruct (comp =? 0); lia.
 Qed.
 
 (* the statement of the property for planes *)
@@ -179,17 +177,19 @@ Theorem yuv_extent_thm k comp width height ss stride a :
   0 <= a_off a /\ a_off a + a_len a <= st * (ph - 1) + pw /\
   st * (ph - 1) + pw = plane_size comp width stride height ss.
 Proof.
-  intros Hw Hh Hv Hs Ha pw ph st.
+  intros Hw Hh Hv Hs Ha. cbv zeta.
   destruct (plane_dims comp width height ss Hw Hh Hv) as (Hpw & Hph & _ & _).
-  assert (Hin : in_plane comp pw ph st k a).
+  assert (Hin : in_plane comp (plane_w comp width ss) (plane_h comp height ss)
+                  (eff_stride stride (plane_w comp width ss)) k a).
   { destruct Ha as [Ha | (dct & Hd & Ha)].
     - apply encdec_plane_extent; assumption.
     - eapply rawdata_plane_extent; eassumption. }
-  pose proof (eff_stride_ge _ _ Hs) as Hge. fold pw in Hge. fold st in Hge.
-  destruct (in_plane_bounds _ _ _ _ _ _ ltac:(lia) Hin) as (B0 & B1 & _).
+  pose proof (eff_stride_ge _ _ Hs) as Hge.
+  assert (Hrange : 0 <= plane_w comp width ss <= eff_stride stride (plane_w comp width ss)) by lia.
+  destruct (in_plane_bounds _ _ _ _ _ _ Hrange Hin) as (B0 & B1 & _).
   destruct Hin as (Hb & Hk & Hl & Hr).
   repeat split; try assumption.
-  unfold plane_size. fold pw. fold ph. unfold st, eff_stride, stride_valid in *.
+  unfold plane_size, eff_stride, stride_valid in *.
   destruct Hs as [->|Hs]; cbn [Z.abs Z.eqb]; [reflexivity|].
   replace (Z.abs stride) with stride by lia. reflexivity.
 Qed.
@@ -211,18 +211,24 @@ Proof.
     rewrite ?round_up_1, ?round_up_2, ?round_up_4, ?round_up_32, ?round_up_64; lia. }
   assert (Hd : forall c, 0 <= c < ncomp ss -> 1 <= plane_w c width ss /\ 1 <= plane_h c height ss).
   { intros c Hcc. destruct (plane_dims c width height ss Hw Hh (conj Hss Hcc)) as (A & B & _). split; assumption. }
-  unfold yuv_buf_size, unified_off, st, ncomp in *.
-  destruct (ss =? 3) eqn:E3.
-  - assert (comp = 0) as -> by lia. cbn [Z.to_nat Pos.to_nat Pos.iter_op comps_from map fold_right Z.eqb].
-    destruct (Hd 0 ltac:(lia)) as [A B]. pose proof (Hpad _ ltac:(lia) : plane_w 0 width ss <= _). nia.
+  assert (Hn : ncomp ss = 1 \/ ncomp ss = 3) by (unfold ncomp; destruct (ss =? 3); lia).
+  unfold yuv_buf_size, unified_off, st.
+  destruct Hn as [Hn | Hn]; rewrite Hn in *.
+  - assert (comp = 0) as -> by lia. change (Z.to_nat 1) with 1%nat. cbn [comps_from map fold_right Z.eqb].
+    destruct (Hd 0 ltac:(lia)) as [A B]. pose proof (Hpad (plane_w 0 width ss) ltac:(lia)). nia.
   - change (Z.to_nat 3) with 3%nat. cbn [comps_from map fold_right].
     destruct (Hd 0 ltac:(lia)) as [A0 B0]. destruct (Hd 1 ltac:(lia)) as [A1 B1]. destruct (Hd 2 ltac:(lia)) as [A2 B2].
-    pose proof (Hpad _ ltac:(lia) : plane_w 0 width ss <= _) as P0.
-    pose proof (Hpad _ ltac:(lia) : plane_w 1 width ss <= _) as P1.
-    pose proof (Hpad _ ltac:(lia) : plane_w 2 width ss <= _) as P2.
+    pose proof (Hpad (plane_w 0 width ss) ltac:(lia)) as P0.
+    pose proof (Hpad (plane_w 1 width ss) ltac:(lia)) as P1.
+    pose proof (Hpad (plane_w 2 width ss) ltac:(lia)) as P2.
     change (0 + 1) with 1. change (1 + 1) with 2.
-    assert (comp = 0 \/ comp = 1 \/ comp = 2) as [->|[->| ->]] by lia; cbn [Z.eqb Pos.eqb Z.sub Z.add Z.opp Z.pos_sub Z.succ_double Z.pred_double Z.double];
-      repeat split; try nia; try lia.
-    (* plane 2 has the geometry of plane 1 *)
-    all: unfold plane_w, plane_h; cbn [Z.eqb]; nia.
+    assert (E2w : plane_w 2 width ss = plane_w 1 width ss) by reflexivity.
+    assert (E2h : plane_h 2 height ss = plane_h 1 height ss) by reflexivity.
+    assert (comp = 0 \/ comp = 1 \/ comp = 2) as [->|[->| ->]] by lia.
+    + cbn [Z.eqb]. repeat split; try lia; nia.
+    + change (1 =? 0) with false. change (1 =? 1) with true. change (1 - 1) with 0. cbn [Z.eqb].
+      repeat split; try lia; nia.
+    + change (2 =? 0) with false. change (2 =? 1) with false. change (2 - 1) with 1.
+      change (1 =? 0) with false. change (1 =? 1) with true. cbv iota.
+      repeat split; try lia; nia.
 Qed.
